@@ -175,6 +175,11 @@ func c14HTTP(idx int, rng *rand.Rand) Case {
 	var files [][2][]byte
 	for i := 0; i < n; i++ {
 		d := tdesc{method: methods[rng.Intn(len(methods))], url: fmt.Sprintf("http://h%d.example:%d/p/%d?q=%d", rng.Intn(3), 80+rng.Intn(3), i, rng.Intn(9))}
+		if rng.Intn(6) == 0 {
+			// URLs a URL library would write differently: the target carries the file's own text
+			d.url = []string{"HTTP://GOKU.example/Up", "http://h.example/page#section", "http://h.example/a|b^c", "http://h.example/caf\u00e9",
+				"http://h.example/%7Euser/%41", "https://h.example:8443/x?y=\"z\""}[rng.Intn(6)]
+		}
 		nh := rng.Intn(4)
 		if rng.Intn(6) == 0 {
 			nh = 5 + rng.Intn(4)
